@@ -52,6 +52,9 @@ structure Cfg where
   initSeq : List (IRef × V)
   /-- partition `j`: touches of its private objects in program order -/
   wseq : Nat → List (PRef × V)
+  /-- partition `j`: order in which `rmtree` empties a left-over `wip_p<j>` of an interrupted attempt
+      (repair of F11: the work directory is rebuilt from scratch) -/
+  rmWork : Nat → List (PRef × V)
   /-- partition `j`: order in which `rmtree` empties a stale `p<j>` -/
   rmStale : Nat → List (PRef × V)
   /-- finalise: order in which the entries of `p<j>/<a>/` are listed and moved -/
@@ -88,8 +91,12 @@ def initProg (c : Cfg) : Prog :=
 /-- `encode_partition`: build `wip_p<j>` (needs the templates), then swap it into place -/
 def partitionProg (c : Cfg) (s0 : S) (j : Nat) : Prog :=
   [.check fun s => s .plan = .ok,
-   .check fun _ => decide (j < c.nParts),
-   .set (.wdir j) .ok] ++
+   .check fun _ => decide (j < c.nParts)] ++
+  -- repaired F11: leftovers of an interrupted attempt are deleted first
+  (if s0 (.wdir j) ≠ .absent then
+      ((c.rmWork j).filter fun p => s0 (p.1.w j) ≠ .absent).map (fun p => .set (p.1.w j) p.2) ++ [.set (.wdir j) .absent]
+   else []) ++
+  [.set (.wdir j) .ok] ++
   (c.wseq j).flatMap (fun p =>
     match p.1 with
     | .hdr a => [.check fun s => s (.tmpl a) = .ok, .set (.wmeta j a) p.2]     -- copytree of the template
